@@ -4,28 +4,32 @@
 
 `input_paths` are the indices of the non-empty output partitions in increasing order, `output_paths` the first
 `m` indices; `move_retry(p1, p2)` is executed for every pair with `p1 != p2`, **in this order**.
-The filesystem state is the list of occupied part indices with their content.
+The filesystem state is the list of occupied part indices with their content `(index, content)`.
 -/
 namespace SpVerif.PackFS
 
-/-- the sequence of moves `(source, target)` -/
-def moves (nonEmpty : List Nat) : List (Nat × Nat) :=
-  (nonEmpty.zip (List.range nonEmpty.length)).filter (fun p => p.1 != p.2)
-
-/-- state: occupied indices with their content (the original index) -/
 abbrev St := List (Nat × Nat)
 
-/-- `move_retry(p1, p2)`: if `p1` exists, move it onto `p2` (a file already at `p2` is overwritten) -/
+/-- `move_retry(p1, p2)`: `if filesystem.exists(p1): filesystem.move(p1, p2)` — whatever is at `p2` is overwritten -/
 def applyMove (s : St) (m : Nat × Nat) : St :=
-  match s.find? (fun e => e.1 == m.1) with
-  | none => s
-  | some e => (m.2, e.2) :: (s.filter (fun x => x.1 != m.1 && x.1 != m.2))
+  if s.any (fun e => e.1 == m.1) then
+    (s.filter (fun e => e.1 == m.1)).map (fun e => (m.2, e.2)) ++ s.filter (fun e => e.1 != m.1 && e.1 != m.2)
+  else s
 
 def initial (nonEmpty : List Nat) : St := nonEmpty.map (fun i => (i, i))
 
-def compact (nonEmpty : List Nat) : St := (moves nonEmpty).foldl applyMove (initial nonEmpty)
+/-- `for p1, p2 in zip(input_paths, output_paths): if p1 != p2: move_retry(p1, p2)`; `j` is the next output index -/
+def compactFrom : Nat → List Nat → St → St
+  | _, [], s => s
+  | j, i :: rest, s => compactFrom (j + 1) rest (if i != j then applyMove s (i, j) else s)
 
-/-- run the same moves in another order (what independent tasks may do) -/
+def compact (nonEmpty : List Nat) : St := compactFrom 0 nonEmpty (initial nonEmpty)
+
+/-- the sequence of moves `(source, target)` the loop performs -/
+def moves (nonEmpty : List Nat) : List (Nat × Nat) :=
+  (nonEmpty.zip (List.range nonEmpty.length)).filter (fun p => p.1 != p.2)
+
+/-- run the moves in a given order (what independent tasks may do) -/
 def compactIn (order : List (Nat × Nat)) (nonEmpty : List Nat) : St := order.foldl applyMove (initial nonEmpty)
 
 end SpVerif.PackFS
